@@ -11,6 +11,7 @@ TEXT = {
  "C02": ("6 C02", T + "trace validation of insertion histories against DelaunayAPI!Insert after every call (bootstrap or Levels 1-3 at the configured strength, exactly one new vertex, key resolves, check policy => empty circumspheres)"),
  "C03": ("6 C03", T + "every naturally failing / skipped mutating call in the insert, remove, flip and repair histories is validated against the UNCHANGED-Obs disjunct of its contract action; the cache model adds RefusalsChangeNothing and the rolled-back index"),
  "C04": ("6 C04", T + "Verdicts events (is_valid, validate, report, flip verifier, brute-force finder) judged against the exact-integer NoStrictlyInside oracle (soundness) and DT(S) in general position (completeness)"),
+ "C05": ("6 C05", T + "Faulted events: 17 classes of single faults at every site (and pairs on tiny instances) injected into copies of valid triangulations through cfg(delaunay_verif) raw accessors; the library's per-level and cumulative verdicts are compared by TLC with Levels 1-3 recomputed from the raw projected slots (soundness per owning level, completeness, cumulative = conjunction, report empty <=> validate)"),
  "C06": ("6 C06", T + "trace validation of removal histories against DelaunayAPI!Remove"),
  "C07": ("6 C07", T + "trace validation of Edit-API flips on every handle position against DelaunayAPI!Flip (move shape U=A+B, FlipInfo, combinatorial invariants) and inverse-restores-cells"),
  "C08": ("6 C08", T + "trace validation of both repair entry points from non-Delaunay states against DelaunayAPI!Repair"),
@@ -23,6 +24,7 @@ TEXT = {
  "C16": ("6 C16", T + "toroidal Construct / Insert events validated against exact modular arithmetic (w = m mod L), the half-open box, idempotence, and the C01 certificate of the wrapped set. The periodic image-point mode (closed surface, chi = 0) is NOT covered by this revision"),
  "C17": ("6 C17", T + "complete Hilbert index tables (bijection onto 0..N-1, unit steps) for all small grids D=1..5, permutation contract of every ordering strategy, exact/epsilon dedup contracts of all seven variants, on lattice inputs with ties, signed zeros and near duplicates"),
  "C18": ("6 C18", T + "Gen_Measures: TLC enumerates simplices with exact integer ingredients (determinant, facet Gram determinants, Cramer numerators); each is replayed five times (permutation, translation, scaling) and the library's f64 results are compared with the exact values (relative 1e-9) in the harness; TLC re-derives determinant and degeneracy class of every replayed vector"),
+ "C19": ("6 C19", T + "no trace-specification action accepts a panic or watchdog-timeout event; all histories of all families plus an adversarial family (extreme scales, non-finite coordinates at every entry point, mixed magnitudes) are validated in a mode where only the C19 conjuncts (panic, timeout, transcribed work budgets, refusal of non-finite coordinates) can reject"),
  "C15": ("6 C15", T + "Queries events validated against face enumeration (Topology.tla) of the logged cells"),
 }
 LEVEL_NOTE = ("Trusted: TLC; the TLA+ text of spec/ (Geometry, Topology, DelaunayAPI, Caches); the harness projection "
